@@ -65,6 +65,11 @@ def run(chk, tier, seed):
     if r.violated:
         chk.violation("model:" + r.violated, "Containers.tla: view arithmetic violates %s\n%s" % (r.violated, "\n".join(r.cex[:30])), dict(spec="Containers.tla"))
     cases = sorted({json.dumps(c, sort_keys=True): c for c in r.cases}.values(), key=lambda c: json.dumps(c, sort_keys=True))
+    # the same invariants over geometries nobody formats a disc with (1..85 tracks x 1..20 sectors, ten MMB slots): 517 200 states, no emission
+    rd = common.tlc("Containers", "Containers_deep.cfg", want_cases=False)
+    chk.add_tlc("Containers_deep.cfg", rd)
+    if rd.violated:
+        chk.violation("model:deep:" + rd.violated, "Containers.tla (deep geometries): %s\n%s" % (rd.violated, "\n".join(rd.cex[:30])), dict(spec="Containers.tla"))
     chk.exhaustive = True
     events = []
     with common.Scratch("c04") as scratch:
